@@ -14,6 +14,8 @@ Oracle: mc/ref/ndn_strict.py (independent strict reader), clauses (a)-(e) of DES
 from __future__ import annotations
 
 import itertools
+import json
+import os
 import signal
 import struct
 import sys
@@ -410,6 +412,13 @@ def plan(tier, seed):
         chunk = 20000 if sp in ('short',) or sp.startswith('typed') else 4000
         for lo in range(0, n, chunk):
             units.append({'space': sp, 'lo': lo, 'hi': min(n, lo + chunk), 'tier': tier})
+    # decode order: every ordered pair (first packet, first decoder) -> (second packet, second decoder) of the valid corpus in a
+    # process that has decoded nothing else (decoders share model classes by inheritance; nothing may survive between calls)
+    labels = sorted(get_corpus())
+    firsts = [(la, d) for la in labels for d in decoders_for(la)]
+    for k, (la, d) in enumerate(firsts):
+        units.append({'space': 'order', 'first': [la, d], 'tier': tier})
+    sizes['order'] = len(firsts) ** 2
     return {
         'units': units,
         'rule': 'case = (decoder, byte string); every string of each sub-space is given to every decoder it can concern. '
@@ -424,7 +433,54 @@ def plan(tier, seed):
     }
 
 
+def unit_order(arg):
+    acc = Acc()
+    acc.state_hashes = None
+    cp = get_corpus()
+    la, d = arg['first']
+    signal.signal(signal.SIGALRM, _alarm)
+    labels = sorted(cp)
+    for lb in labels:
+        for d2 in decoders_for(lb):
+            # a fresh child per pair: what the first decode leaves behind is all the second one can see
+            r, w = os.pipe()
+            pid = os.fork()
+            if pid == 0:
+                try:
+                    os.close(r)
+                    out = []
+                    for lab, dec in ((la, d), (lb, d2)):
+                        key, viol = judge(dec, cp[lab], False)
+                        out.append([key, viol])
+                    os.write(w, json.dumps(out).encode())
+                finally:
+                    os._exit(0)
+            os.close(w)
+            buf = b''
+            while True:
+                chunk = os.read(r, 65536)
+                if not chunk:
+                    break
+                buf += chunk
+            os.close(r)
+            os.waitpid(pid, 0)
+            res = json.loads(buf) if buf else [['child-died', [['C07|order|child-died', f'{la}/{d} then {lb}/{d2}']]]] * 2
+            acc.evaluations += 1
+            acc.state_count += 1
+            acc.transitions += 2
+            acc.nontrivial += 1
+            acc.outcome(f'order|{d}>{d2}|{res[1][0]}')
+            acc.observe([la, d, lb, d2, res[1][0]])
+            for sig, what in res[1][1]:
+                acc.violation(sig + f'|after:{d}', what + f' (after decoding {la} with {d} in the same process)',
+                              {'order': [[la, d], [lb, d2]]})
+    acc.sample({'first': arg['first'], 'second': 'every corpus packet x decoder'})
+    return acc
+
+
 def unit(arg):
+    if arg['space'] == 'order':
+        return unit_order(arg)
     acc = Acc()
     acc.state_hashes = None
     sp = arg['space']
@@ -453,5 +509,12 @@ def unit(arg):
 
 def replay(case):
     signal.signal(signal.SIGALRM, _alarm)
+    if 'order' in case:
+        # (the runner replays every case in a freshly forked child)
+        cp = get_corpus()
+        (la, d), (lb, d2) = case['order']
+        judge(d, cp[la], False)
+        _, viol = judge(d2, cp[lb], False)
+        return [{'sig': s + f'|after:{d}', 'what': w} for s, w in viol]
     _, viol = judge(case['dec'], bytes.fromhex(case['hex']), case['steps'], case.get('grammar', False))
     return [{'sig': s, 'what': w} for s, w in viol]
